@@ -2,6 +2,7 @@ import XmppModel.Prelude.Hex
 import XmppModel.Model.Close
 import XmppModel.Model.CloseEnv
 import XmppModel.Model.CloseFraming
+import XmppModel.Model.CloseServe
 /-! Driver for C10 (see harness/c10 for the line protocol).
 
     hist <serve 0|1> <op,op,…>        -> <res,res,…> <wire items> <outClosed><inClosed> <serve result>
@@ -13,6 +14,9 @@ import XmppModel.Model.CloseFraming
     tee <k|-> <op,…>                      -> <res,…> <connection writes> <outClosed> <closing-tag writes>   (TeeOut fails from op k on)
     wdl <op,…>                            -> <res,…> <wire items> <outClosed> wd=<z|p> setters=clean        (tNa/tNx/tNk: context fate)
     fr <tcp|ws> <init|recv> <op,…>        -> <res,…> <el|ctcp|cws,…> <outClosed><inClosed> <serve result>     (p/q: peer sends </stream:stream> / <close/>)
+    srv <act,…>                           -> <ok|closedout|blocked,…> <wire> <outClosed><inClosed> <notstarted|running|nil|err|deadline>
+                                          (Serve as a thread: v start; ai/ri, ao/aw/ro application holds a reader / writer;
+                                           c Close; ds/dy/dc/db peer input; x deadline passes; Serve runs until it blocks after each)
     held <pre|handler> <dp|dz|d>          -> serve=deadline held=ok fresh=closedin bits=11                  (reader held across Serve's end)
 
 ops: c close; t1…t6 the transmit entry points; r read; m/y peer stanza (handler silent /
@@ -118,8 +122,55 @@ def parseFrOp (s : String) : Option Framing.Op :=
 def showTag : Framing.Tag → String
   | .el => "el" | .close .tcp => "ctcp" | .close .ws => "cws"
 
+/-- harness action -> model actions (`c` = `Close()` by an application goroutine) -/
+def parseSrvAct (s : String) : Option (List SrvLts.Act) :=
+  match s with
+  | "v" => some [.start]
+  | "ai" => some [.appAcquireIn]
+  | "ri" => some [.appReleaseIn]
+  | "ao" => some [.appAcquireOut]
+  | "aw" => some [.appWrite]
+  | "ro" => some [.appReleaseOut]
+  | "c" => some [.appAcquireOut, .appCloseSession, .appReleaseOut]
+  | "ds" => some [.deliver (.stanza false)]
+  | "dy" => some [.deliver (.stanza true)]
+  | "dc" => some [.deliver .close]
+  | "db" => some [.deliver .bad]
+  | "x" => some [.expire]
+  | _ => none
+
+def showSrvRet : SrvLts.Ret → String
+  | .nil_ => "nil" | .err => "err" | .deadline => "deadline"
+
+def showSrvItem : SrvLts.Item → String
+  | .el => "el" | .close => "close"
+
+/-- every action is followed by `Serve` running until it blocks; a disabled action is reported as
+`blocked` and ends the scenario -/
+def srvRun : SrvLts.St → List (List SrvLts.Act) → List String → SrvLts.St × List String
+  | s, [], acc => (s, acc.reverse)
+  | s, as :: rest, acc =>
+    let r := as.foldl (fun (st : Option SrvLts.St) a => st.bind fun x => SrvLts.step false x a) (some s)
+    match r with
+    | none => (s, ("blocked" :: acc).reverse)
+    | some s' =>
+      let res := if as == [SrvLts.Act.appWrite] && s.outClosed then "closedout" else "ok"
+      -- the harness feeds a keep-alive whenever Serve has settled inside its read
+      let s2 := SrvLts.serveRun 16 s'
+      let s3 := match SrvLts.step false s2 .keepalive with | some x => x | none => s2
+      srvRun s3 rest (res :: acc)
+
 def handle (args : List String) : Option String :=
   match args with
+  | ["srv", acts] => do
+    let l ← mapM? parseSrvAct (splitList acts)
+    let r := srvRun SrvLts.init l []
+    let s := r.1
+    let serve := match s.spc with
+      | .notStarted => "notstarted"
+      | .returned x => showSrvRet x
+      | _ => "running"
+    pure s!"{joinList r.2} {joinList (s.wire.map showSrvItem)} {showBool s.outClosed}{showBool s.inClosed} {serve}"
   | ["fr", fr, _role, ops] => do
     let f ← match fr with | "tcp" => some Framing.Fr.tcp | "ws" => some Framing.Fr.ws | _ => none
     let l ← mapM? parseFrOp (splitList ops)
